@@ -138,3 +138,30 @@ Proof.
   rewrite validation_noninterference; rewrite Hp; [reflexivity|exact Hn].
 Qed.
 End Histories.
+
+(* ------------------------------------------------------------------ same inputs, same observation *)
+(* An observation of a call's final state that does not depend on WHICH numbers the call was handed (a report: the generated
+   names are internal to the module and never printed) is the same under every schedule and whatever else runs: it depends
+   on the call's own program and initial state only. *)
+Section Observation.
+Variables P O : Type.
+Fixpoint gens (prog : list (op P)) : nat :=
+  match prog with [] => 0 | OLocal _ :: r => gens r | OGen _ :: r => S (gens r) end.
+Lemma handed_length : forall (s : schedule P) c t, List.length (handed c t s) = gens (program_of t s).
+Proof.
+  induction s as [|[u o] s IH]; intros c t; [reflexivity|]. cbn [handed program_of flat_map fst snd].
+  destruct o as [f|g].
+  - destruct (Nat.eqb u t); cbn [app gens]; apply IH.
+  - rewrite app_length. destruct (Nat.eqb u t); cbn [app gens List.length]; rewrite IH; reflexivity.
+Qed.
+Definition number_blind (obs : P -> O) (p : P) (prog : list (op P)) : Prop :=
+  forall n1 n2, List.length n1 = gens prog -> List.length n2 = gens prog -> obs (alone p prog n1) = obs (alone p prog n2).
+Theorem same_inputs_same_observation : forall (obs : P -> O) (prog : list (op P)) (p : P), number_blind obs p prog ->
+  forall (s s' : schedule P) (w w' : world P) t t',
+  program_of t s = prog -> program_of t' s' = prog -> priv w t = p -> priv w' t' = p ->
+  obs (priv (run w s) t) = obs (priv (run w' s') t').
+Proof.
+  intros obs prog p Hb s s' w w' t t' Hs Hs' Hp Hp'. rewrite !noninterference, Hs, Hs', Hp, Hp'.
+  apply Hb; rewrite handed_length; congruence.
+Qed.
+End Observation.
